@@ -64,7 +64,9 @@ def enumerate_cases(tier, scope):
     hookfail = {'steps': [gen.S([['out', 'h', 1]], ['wait', 1, None, None]), gen.S([['out', 'g', 2]], ['value', 6])], 'raise_in_hook': ['on_finished', 'post']}
     # parks itself with a message and data but without a continuation (it is ended by kill or fail, not resumed)
     parked = {'steps': [gen.S([['out', 'p', 1]], ['wait', None, 'parked', {'d': [TUP, 2]}])]}
-    progs = [RICH, cat['waitwait'], cat['failing'], cat['selfkill'], cat['chain'], SPECD, CODEC, hookfail, parked]
+    # constructed with an explicitly empty mapping of inputs (not the same as no inputs at all)
+    empty_inputs = dict(cat['wait1'], inputs={})
+    progs = [RICH, cat['waitwait'], cat['failing'], cat['selfkill'], cat['chain'], SPECD, CODEC, hookfail, parked, empty_inputs]
     for prog in progs:
         for sched in scheds:
             for loader in ('default', 'custom', 'custom-arg'):
@@ -205,6 +207,15 @@ def _load_and_resave(ckpt, medium, loader, how='unbundle'):
         except Exception as exc:  # noqa: BLE001
             out['save_error'] = exc
         # ... also after the loaded process went on and put more into its (nested) outputs, as a later step would
+        # ... and whoever holds the loaded process can put a listener on it, like on the original
+        try:
+            from plumpy.process_listener import ProcessListener
+
+            extra_listener = ProcessListener()
+            proc.add_process_listener(extra_listener)
+            proc.remove_process_listener(extra_listener)
+        except Exception as exc:  # noqa: BLE001
+            out['listener_error'] = exc
         try:
             out['observed'] = copy.deepcopy(out['observed'])  # (what was observed before the process went on)
         except Exception:  # noqa: BLE001 - something uncopyable in the outcome: leave the outputs alone
@@ -276,6 +287,9 @@ def execute(case):
                 continue
             if res.get('bundle_changed_by_load'):
                 v('load-changed-the-bundle', f"{where} via {medium} ({how}): loading changed the saved state it was given: {res['bundle_changed_by_load']}")
+                continue
+            if 'listener_error' in res:
+                v('loaded-process-refuses-listener', f"{where} via {medium} ({how}): add_process_listener on the loaded process raised {res['listener_error']!r}")
                 continue
             if res.get('bundle_changed_by_loaded_process'):
                 v('loaded-process-shares-the-bundle', f"{where} via {medium} ({how}): outputs emitted by the loaded process afterwards showed up in the saved state it was loaded from: {res['bundle_changed_by_loaded_process']}")
